@@ -163,6 +163,7 @@ structure FreshPost (cfg : Cfg) (k : Kind) (L : Layout) (size : Nat) (s1 s3 : St
       ∃ p g rest sx, s1.resps = .granted p g :: rest ∧ c.base = p ∧ c.size ≤ g ∧
         GeomInv cfg sx ∧ sx.minAlign = s1.minAlign ∧ sx.cur = .chunk s1.chunks.length ∧
         sx.chunks = s1.chunks ++ [c] ∧ tryCurSpec cfg k sx L = some (v, s3)
+  trace : Trace s1 s3
 
 theorem freshTry_newChunk (hc : CfgOK cfg) {s1 : State} (h1 : GeomInv cfg s1) (hr : RespsOK cfg s1) (k : Kind)
     {L : Layout} {hints : Hints} (hL : L.Valid) (hh : hints.sma = true → L.align ∣ L.size)
@@ -178,14 +179,15 @@ theorem freshTry_newChunk (hc : CfgOK cfg) {s1 : State} (h1 : GeomInv cfg s1) (h
     obtain ⟨g1, g2, g3, g4, g5, g6⟩ := newChunkSpec_ok hc h1 hr hsz he
     cases r2 with
     | error e =>
-      refine ⟨s2, .error e, rfl, g1, g2, g4, ?_, fun v hv => by cases hv⟩
+      refine ⟨s2, .error e, rfl, g1, g2, g4, ?_, fun v hv => (by cases hv), newChunkSpec_trace he⟩
       intro e' _
       exact ⟨by unfold SameShape; rw [g5 e rfl], g3⟩
     | ok i =>
       obtain ⟨hinv, v, s3, ht⟩ := fresh_fits hc h1 hr k hL hk hhint hs he
       obtain ⟨hi, p, g, rest, hrs, hg, hle, hch⟩ := g6 i rfl
       obtain ⟨t1, t2, t3, t4, t5, t6⟩ := tryCurSpec_inv hc hinv hL ht
-      refine ⟨s3, .ok v, ?_, t1, ?_, t4.trans g4, fun e he => (by cases he), ?_⟩
+      refine ⟨s3, .ok v, ?_, t1, ?_, t4.trans g4, fun e he => (by cases he), ?_,
+        (newChunkSpec_trace he).post (show SameShape s2 s3 from t2) (show s3.resps = s2.resps from t5)⟩
       · unfold freshTry
         simp only [tryCur_eq hc hinv k hL hh, r_ok_bind, ht]
         rfl
@@ -233,6 +235,7 @@ structure SlowPost {α : Type} (cfg : Cfg) (L : Layout) (s s' : State) (r : Exce
     ∃ c size, requestSize cfg s L = some size ∧
       s'.chunks.map Chunk.shape = s.chunks.map Chunk.shape ++ [Chunk.shape c] ∧ size ≤ c.size ∧
       s'.cur = .chunk s.chunks.length
+  trace : Trace s s'
 
 theorem SameShape.getLast_size {s s' : State} (h : SameShape s s') {last : Chunk} (hl : s'.chunks.getLast? = some last) :
     ∃ last', s.chunks.getLast? = some last' ∧ last'.size = last.size := by
@@ -273,8 +276,8 @@ theorem inAnotherChunk_ok' (hc : CfgOK cfg) {s : State} (h : GeomInv cfg s) (hr 
     refine ⟨?_, fun _ => ⟨_, _, rfl⟩⟩
     intro s' r he
     cases he
-    exact ⟨⟨h, hr, rfl, fun hx => (by rw [hcur] at hx; cases hx), fun v hv => (by cases hv), Or.inl (SameShape.refl _)⟩,
-      fun v hv => (by cases hv)⟩
+    exact ⟨⟨h, hr, rfl, fun hx => (by rw [hcur] at hx; cases hx), fun v hv => (by cases hv), Or.inl (SameShape.refl _),
+      Trace.refl _⟩, fun v hv => (by cases hv)⟩
   | unallocated =>
     simp only [newChunkForCapacity_eq hc hL]
     cases hs : Spec.calcSize cfg.up cfg.hdr (Nat.max (Spec.hintFromCapacity cfg.up cfg.hdr L) cfg.minChunk) with
@@ -282,8 +285,8 @@ theorem inAnotherChunk_ok' (hc : CfgOK cfg) {s : State} (h : GeomInv cfg s) (hr 
       refine ⟨?_, fun _ => ⟨_, _, rfl⟩⟩
       intro s' r he
       cases he
-      exact ⟨⟨h, hr, rfl, fun _ => ⟨hcur, SameShape.refl _⟩, fun v hv => (by cases hv), Or.inl (SameShape.refl _)⟩,
-        fun v hv => (by cases hv)⟩
+      exact ⟨⟨h, hr, rfl, fun _ => ⟨hcur, SameShape.refl _⟩, fun v hv => (by cases hv), Or.inl (SameShape.refl _),
+        Trace.refl _⟩, fun v hv => (by cases hv)⟩
     | some size =>
       have hreq : requestSize cfg s L = some size := by
         unfold requestSize; simp only [hcur]; exact hs
@@ -294,7 +297,7 @@ theorem inAnotherChunk_ok' (hc : CfgOK cfg) {s : State} (h : GeomInv cfg s) (hr 
       refine ⟨?_, fun hb => f2 (hb size hreq)⟩
       intro s' r he
       have fp := f1 s' r he
-      refine ⟨⟨fp.inv, fp.resps, fp.minAlign, ?_, fun v hv => ⟨_, (fp.ok v hv).1⟩, ?_⟩, ?_⟩
+      refine ⟨⟨fp.inv, fp.resps, fp.minAlign, ?_, fun v hv => ⟨_, (fp.ok v hv).1⟩, ?_, fp.trace⟩, ?_⟩
       · intro hx
         cases r with
         | error e => exact ⟨hcur, (fp.err e rfl).1⟩
@@ -321,7 +324,8 @@ theorem inAnotherChunk_ok' (hc : CfgOK cfg) {s : State} (h : GeomInv cfg s) (hr 
       refine ⟨?_, fun _ => ⟨_, _, rfl⟩⟩
       intro s' r he
       cases he
-      refine ⟨⟨w2, hr1, w4, fun hx => (by obtain ⟨j, hj⟩ := w7; rw [hj] at hx; cases hx), fun _ _ => w7, Or.inl w3⟩, ?_⟩
+      refine ⟨⟨w2, hr1, w4, fun hx => (by obtain ⟨j, hj⟩ := w7; rw [hj] at hx; cases hx), fun _ _ => w7, Or.inl w3,
+        Trace.of_shape w3 w5⟩, ?_⟩
       intro v' hv'
       cases hv'
       exact ⟨sx, x1, x3, x6, Or.inl ⟨x2, i, j, hcur, x4, x5⟩⟩
@@ -337,8 +341,8 @@ theorem inAnotherChunk_ok' (hc : CfgOK cfg) {s : State} (h : GeomInv cfg s) (hr 
         refine ⟨?_, fun _ => ⟨_, _, rfl⟩⟩
         intro s' r he
         cases he
-        exact ⟨⟨w2, hr1, w4, fun hx => (by rw [hj] at hx; cases hx), fun v hv => (by cases hv), Or.inl w3⟩,
-          fun v hv => (by cases hv)⟩
+        exact ⟨⟨w2, hr1, w4, fun hx => (by rw [hj] at hx; cases hx), fun v hv => (by cases hv), Or.inl w3,
+          Trace.of_shape w3 w5⟩, fun v hv => (by cases hv)⟩
       | some size =>
         have hreq : requestSize cfg s L = some size := by
           unfold requestSize; simp only [hcur, hlast', hsz]; exact hs
@@ -349,7 +353,8 @@ theorem inAnotherChunk_ok' (hc : CfgOK cfg) {s : State} (h : GeomInv cfg s) (hr 
         refine ⟨?_, ?_⟩
         · intro s' r he
           have fp := f1 s' r he
-          refine ⟨⟨fp.inv, fp.resps, fp.minAlign.trans w4, ?_, fun v hv => ⟨_, (fp.ok v hv).1⟩, ?_⟩, ?_⟩
+          refine ⟨⟨fp.inv, fp.resps, fp.minAlign.trans w4, ?_, fun v hv => ⟨_, (fp.ok v hv).1⟩, ?_,
+            fp.trace.pre w3 w5⟩, ?_⟩
           · intro hx
             cases r with
             | error e => rw [(fp.err e rfl).2, hj] at hx; cases hx
@@ -383,7 +388,7 @@ theorem inAnotherChunk_ok (hc : CfgOK cfg) {s : State} (h : GeomInv cfg s) (hr :
 
 theorem SlowPost.map {α β : Type} {cfg : Cfg} {L : Layout} {s s' : State} {r : Except AErr α} (f : α → β)
     (p : SlowPost cfg L s s' r) : SlowPost cfg L s s' (r.map f) := by
-  refine ⟨p.inv, p.resps, p.minAlign, p.unalloc, ?_, p.shape⟩
+  refine ⟨p.inv, p.resps, p.minAlign, p.unalloc, ?_, p.shape, p.trace⟩
   intro v hv
   cases r with
   | error e => cases hv
@@ -405,7 +410,7 @@ theorem allocGeneric_ok (hc : CfgOK cfg) {s : State} (h : GeomInv cfg s) (hr : R
     refine ⟨?_, fun _ => ⟨_, _, rfl⟩⟩
     intro s' r he
     cases he
-    refine ⟨g1, fun x hx => hr x (g5 ▸ hx), g4, ?_, fun _ _ => ⟨j, g3.trans hj⟩, Or.inl g2⟩
+    refine ⟨g1, fun x hx => hr x (g5 ▸ hx), g4, ?_, fun _ _ => ⟨j, g3.trans hj⟩, Or.inl g2, Trace.of_shape g2 g5⟩
     intro hx
     rw [g3, hj] at hx; cases hx
 
